@@ -302,6 +302,7 @@ def parseLine (mode : Bool) (p : Parsed) (line : String) : Parsed :=
   | [] => p
   | "load" :: _ => p
   | "lpc" :: _ => p
+  | "conf" :: _ => p     -- configuration / master variant of the run: the limits machine does not depend on it (Handler.lean)
   | ["cfgint", i, v] =>
     match i.toNat?, v.toInt? with
     | some i, some v => { p with lim := setCfgInt p.lim i v }
